@@ -10,14 +10,14 @@
      - the binary has the current bytecode format,
      - it was compiled against the simul_efun file the driver is running now,
      - the program's source and every file it includes are older than the binary,
-     - the source of every inherited program is older than the binary, and so is the inherited program's
-       own binary if there is one.
+     - the source of every inherited program and every file that program includes are older than the binary,
+       and so is the inherited program's own binary if there is one.
    The design is right if a binary that may be used always embodies the current versions (NeverStale).  *)
 EXTENDS Integers, FiniteSets, Sequences, TLC
 
 Progs == {"A", "B"}
-Files == {"A", "B", "H", "S"}
-Src(p)  == IF p = "A" THEN {"A", "H"} ELSE {"B"}      \* own source + includes
+Files == {"A", "B", "H", "G", "S"}        \* G: a header that only the inherited program B includes
+Src(p)  == IF p = "A" THEN {"A", "H"} ELSE {"B", "G"} \* own source + includes
 Inh(p)  == IF p = "A" THEN {"B"} ELSE {}
 Order   == <<"B", "A">>                                \* inherited programs load first
 
@@ -29,7 +29,7 @@ VARIABLES now, mtime, ver,        \* files
 vars == <<now, mtime, ver, bin, bootS, saveB, stale>>
 
 NoBin == [present |-> FALSE, mtime |-> 0, fmt |-> TRUE, vers |-> [f \in Files |-> 0], sver |-> 0]
-Init == /\ now = 5 /\ mtime = [f \in Files |-> CASE f = "A" -> 1 [] f = "B" -> 2 [] f = "H" -> 3 [] f = "S" -> 4]
+Init == /\ now = 5 /\ mtime = [f \in Files |-> CASE f = "A" -> 1 [] f = "B" -> 2 [] f = "H" -> 3 [] f = "S" -> 4 [] f = "G" -> 0]
         /\ ver = [f \in Files |-> 1] /\ bin = [p \in Progs |-> NoBin] /\ bootS = 1 /\ saveB \in BOOLEAN /\ stale = FALSE
 
 Edit(f)  == now' = now + 1 /\ mtime' = [mtime EXCEPT ![f] = now] /\ ver' = [ver EXCEPT ![f] = @ + 1] /\ UNCHANGED <<bin, bootS, saveB, stale>>
@@ -41,9 +41,11 @@ OldFormat(p) == bin[p].present /\ bin' = [bin EXCEPT ![p].fmt = FALSE] /\ UNCHAN
 Allowed(q, b) ==
   /\ b[q].present /\ b[q].fmt /\ b[q].sver = bootS
   /\ \A f \in Src(q) : mtime[f] < b[q].mtime
-  /\ \A i \in Inh(q) : mtime[i] < b[q].mtime /\ (b[i].present => b[i].mtime <= b[q].mtime)
+  /\ \A i \in Inh(q) : /\ \A f \in Src(i) : mtime[f] < b[q].mtime        \* the inherited program's source AND what it includes
+                        /\ (b[i].present => b[i].mtime <= b[q].mtime)
 
-Deps(q) == Src(q) \cup Inh(q)
+\* what a program embodies: its sources, and (through the layout it was linked against) everything its inherited programs embody
+Deps(q) == Src(q) \cup Inh(q) \cup UNION {Src(i) : i \in Inh(q)}
 Cur(q)  == [f \in Files |-> IF f \in Deps(q) THEN ver[f] ELSE 0]
 Compiled(q) == IF q = "B" /\ ~saveB THEN bin[q]      \* no #pragma save_binary: nothing is written
                ELSE [present |-> TRUE, mtime |-> now, fmt |-> TRUE, vers |-> Cur(q), sver |-> bootS]
